@@ -167,6 +167,13 @@ def py_binop(I, o, a, b, env):
     from .interp import OpaqueStr
     if isinstance(a, OpaqueStr) or isinstance(b, OpaqueStr):
         return OpaqueStr()
+    from .strlib import RopePos, Lit
+    if isinstance(a, RopePos) and isinstance(b, int) and o in ("+", "-"):
+        off = a.off + b if o == "+" else a.off - b
+        seg = a.rope.segs[a.seg]
+        if isinstance(seg, Lit) and 0 <= off <= len(seg.s):
+            return RopePos(a.rope, a.seg, off)
+        raise Unsupported("string position arithmetic leaving a literal segment")
     # numbers
     if is_num(a) and is_num(b):
         conc = isinstance(a, (int, float)) and isinstance(b, (int, float))
@@ -235,7 +242,11 @@ def py_binop(I, o, a, b, env):
     if is_str(a) and is_str(b) and o == "+":
         if isinstance(a, str) and isinstance(b, str):
             return a + b
-        from .strlib import cstr_of, CStr
+        from .strlib import cstr_of, CStr, Rope, rope_of, simple_norm
+        if isinstance(a, Rope) or isinstance(b, Rope):
+            ra, rb = rope_of(a), rope_of(b)
+            if ra is not None and rb is not None:
+                return simple_norm(Rope(ra.segs + rb.segs))
         ca, cb = cstr_of(a), cstr_of(b)
         if ca is not None and cb is not None:
             return CStr(ca.codes + cb.codes)
@@ -308,7 +319,20 @@ def eq(I, a, b):
     if is_str(a) and is_str(b):
         if isinstance(a, str) and isinstance(b, str):
             return a == b
-        from .strlib import cstr_of
+        from .strlib import cstr_of, Rope, rope_of, rope_eq, FirstChar
+        if isinstance(a, FirstChar) or isinstance(b, FirstChar):
+            fc, other = (a, b) if isinstance(a, FirstChar) else (b, a)
+            if isinstance(other, str):
+                if other == "-":
+                    return simp(zint(fc.t) < 0)
+                if len(other) == 1 and not other.isdigit():
+                    return False
+        if isinstance(a, Rope) or isinstance(b, Rope):
+            ra, rb = rope_of(a), rope_of(b)
+            if ra is not None and rb is not None:
+                r = rope_eq(I, ra, rb)
+                if r is not None:
+                    return r
         ca, cb = cstr_of(a), cstr_of(b)
         if ca is not None and cb is not None:
             if len(ca.codes) != len(cb.codes):
@@ -575,6 +599,9 @@ def contains(I, cont, x):
     if is_str(cont) and is_str(x):
         if isinstance(cont, str) and isinstance(x, str):
             return x in cont
+        from .strlib import Rope, rope_contains
+        if isinstance(cont, Rope) and isinstance(x, str):
+            return rope_contains(cont, x)
         return simp(z3.Contains(zstr(cont), zstr(x)))
     if isinstance(cont, EnumVal) and isinstance(x, EnumVal) and cont.cls.kind == "flag":
         return num_eq(I.flag_op("&", cont.value, x.value), x.value)
@@ -1244,7 +1271,8 @@ def to_str(I, val):
     if isinstance(val, z3.SeqRef) or hasattr(val, "to_z3"):
         return val
     if isinstance(val, z3.ArithRef) and val.is_int():
-        return str_of_int(val)
+        from .strlib import Rope, Dec
+        return Rope([Dec(val)])
     if isinstance(val, z3.BoolRef):
         return z3.If(val, z3.StringVal("True"), z3.StringVal("False"))
     if val is None:
